@@ -216,10 +216,7 @@ impl Gen {
 /// the observed statement event in the model's snapshot schema
 fn event_model_schema(ev: &rrss::verif::StmtEvent) -> J {
     use rrss::frontend::ast::VariableName;
-    let name = |n: &VariableName| match n {
-        VariableName::Simple(s) => s.0.to_lowercase(),
-        other => format!("{:?}", other),
-    };
+    let name = |n: &VariableName| crate::astout::canon_name(n);
     let scopes: Vec<J> = ev
         .scopes
         .iter()
@@ -248,20 +245,30 @@ fn event_model_schema(ev: &rrss::verif::StmtEvent) -> J {
 fn run_one(prog: &J, inp: &[&str]) -> String {
     let naming = Naming::default();
     let program = Builder { naming: &naming }.program(prog);
+    run_program(&program, prog, inp, None)
+}
+
+/// run `program` (whose tree in the model's schema is `prog`) and describe the run as one trace line
+fn run_program(program: &rrss::frontend::ast::Program, prog: &J, inp: &[&str], file: Option<&str>) -> String {
     let cfg = RunCfg { input: inp.iter().map(|c| c.as_bytes().to_vec()).collect(), out_budget: None, in_fail_at: None, no_events: false };
     let obs = exec::run(&program, &cfg);
     let evs: Vec<J> = obs.log.iter().filter_map(|e| match e { Ev::Stmt(s) => Some(event_model_schema(s)), _ => None }).collect();
     let reads = obs.log.iter().filter(|e| matches!(e, Ev::Read(_) | Ev::ReadFail)).count();
     let st = if obs.is_panic() { "panic" } else if obs.is_ok() { "ok" } else { "err" };
-    json!({"prog": prog, "inp": inp, "st": st, "out": obs.out_text(), "rd": reads, "evs": evs, "outcome": obs.outcome_str()}).to_string()
+    json!({"prog": prog, "inp": inp, "st": st, "out": jv::abstractise(&obs.out_text()), "rd": reads, "evs": evs, "outcome": obs.outcome_str(),
+           "file": file.unwrap_or("")}).to_string()
 }
 
 fn run_in_child(prog: &J, inp: &[&str]) -> Option<String> {
+    in_child(|| run_one(prog, inp))
+}
+
+fn in_child(run: impl FnOnce() -> String) -> Option<String> {
     use std::os::unix::io::FromRawFd;
     let mut fds = [0i32; 2];
     unsafe {
         if libc::pipe(fds.as_mut_ptr()) != 0 {
-            return Some(run_one(prog, inp));
+            return Some(run());
         }
         let pid = libc::fork();
         if pid == 0 {
@@ -269,7 +276,7 @@ fn run_in_child(prog: &J, inp: &[&str]) -> Option<String> {
             let lim = libc::rlimit { rlim_cur: 2 << 30, rlim_max: 2 << 30 };
             libc::setrlimit(libc::RLIMIT_AS, &lim);
             libc::alarm(20);
-            let line = run_one(prog, inp);
+            let line = run();
             let mut w = std::fs::File::from_raw_fd(fds[1]);
             let _ = w.write_all(line.as_bytes());
             drop(w);
@@ -322,6 +329,64 @@ pub fn record(args: &[String]) -> i32 {
     }
     if skipped > 0 {
         eprintln!("{} programs skipped (resource limits)", skipped);
+    }
+    0
+}
+
+
+/// Recorder for the program corpus (`/verif/corpus/*.rock` with `.in`): the programs of the repository's own integration tests, parsed
+/// by the real parser, run on the real interpreter with the snapshot hook, one trace line per program for InterpTrace.
+/// A text outside the model's alphabet (non-ASCII other than U+00E9, or the place-holder `~` itself) or one the parser rejects is skipped.
+pub fn record_corpus(args: &[String]) -> i32 {
+    let mut dir = None;
+    let mut out = None;
+    let mut i = 0;
+    while i < args.len() {
+        match args[i].as_str() {
+            "--dir" => { dir = Some(args[i + 1].clone()); i += 1 }
+            "--out" => { out = Some(args[i + 1].clone()); i += 1 }
+            a => { eprintln!("unknown option {}", a); return 2 }
+        }
+        i += 1;
+    }
+    let dir = dir.expect("--dir required");
+    let mut f = std::fs::File::create(out.expect("--out required")).expect("cannot create trace file");
+    let mut files: Vec<_> = std::fs::read_dir(&dir).expect("corpus directory").filter_map(|e| e.ok()).map(|e| e.path())
+        .filter(|p| p.extension().map_or(false, |x| x == "rock")).collect();
+    files.sort();
+    let in_alphabet = |s: &str| s.chars().all(|c| (c.is_ascii() && c != '~' && (c == '\n' || c == '\t' || !c.is_ascii_control())) || c == '\u{e9}');
+    let (mut recorded, mut skipped) = (0, Vec::new());
+    for path in files {
+        let stem = path.file_stem().unwrap().to_string_lossy().to_string();
+        let text = std::fs::read_to_string(&path).unwrap_or_default();
+        let input = std::fs::read_to_string(path.with_extension("in")).unwrap_or_default();
+        if !in_alphabet(&text) || !in_alphabet(&input) {
+            skipped.push(format!("{}: outside the model alphabet", stem));
+            continue;
+        }
+        let program = match std::panic::catch_unwind(|| rrss::frontend::parser::parse(&text)) {
+            Ok(Ok(p)) => p,
+            _ => { skipped.push(format!("{}: not accepted by the parser", stem)); continue }
+        };
+        let back = std::collections::HashMap::new();
+        let prog = crate::astout::Out { back: &back, corpus: true }.program(&program);
+        let chunks: Vec<&str> = input.split_inclusive('\n').collect();
+        let abs_chunks: Vec<String> = chunks.iter().map(|c| jv::abstractise(c)).collect();
+        let line = in_child(|| {
+            let l = run_program(&program, &prog, &chunks, Some(&stem));
+            // the recorded input is in the model's alphabet
+            let mut j: J = serde_json::from_str(&l).unwrap();
+            j["inp"] = json!(abs_chunks);
+            j.to_string()
+        });
+        match line {
+            Some(l) => { writeln!(f, "{}", l).unwrap(); recorded += 1 }
+            None => skipped.push(format!("{}: resource limits", stem)),
+        }
+    }
+    eprintln!("{} programs recorded, {} skipped", recorded, skipped.len());
+    for s in skipped {
+        eprintln!("skipped {}", s);
     }
     0
 }
